@@ -14,7 +14,11 @@ Cases == {[p |-> p, np |-> np, ter |-> ter] : p \in Strings, np \in BOOLEAN, ter
 Result(x) == Clean_Exact(x.p, x.np, x.ter)
 ModelViol(x) == LET q == Result(x) IN
                 CanonicalViol(x.p, q, x.np, x.ter) \cup V(Clean_Exact(q, x.np, x.ter) = q, "Idempotent")
-Init == c \in Cases /\ ok = (ModelViol(c) = {})
+\* nested quantifiers, not c \in Cases: TLC then enumerates the function sets one element at a time instead of first building
+\* (and sorting) the whole union
+Init == \E n \in 0..MaxLen : \E p \in [1..n -> Alphabet] : \E np \in BOOLEAN : \E ter \in BOOLEAN :
+            /\ c = [p |-> p, np |-> np, ter |-> ter]
+            /\ ok = (ModelViol(c) = {})
 Next == UNCHANGED <<c, ok>>
 Spec == Init /\ [][Next]_<<c, ok>>
 \* NOT an invariant of the run: the transcription is allowed to violate the property (then the code is asked);
